@@ -347,6 +347,7 @@ func (db *RockDB) DelKeysAt(ts int64, keys ...[]byte) (int64, error) {
 	}
 
 	delCnt := int64(0)
+	keys = dedupKeepLast(keys)
 	for _, k := range keys {
 		c, _ := db.kvDel(ts, k, db.wb)
 		delCnt += c
